@@ -3,6 +3,7 @@ import MaestroVerif.Lemmas.ExpandPlace
 import MaestroVerif.Model.Expand
 import MaestroVerif.Lemmas.SubstLemmas
 import MaestroVerif.Lemmas.SubstTokens
+import MaestroVerif.Lemmas.ExpandText
 
 /-!
 # C09 — Every defined token is substituted with the right value, and only those
@@ -380,5 +381,52 @@ theorem C09_observation_label_first :
                    .dep "DEPDIR".toList "/tmp".toList] with
      | some e => e.apply "$(TOOL) --version".toList == "/tmp/bin/tool --version".toList
      | none => false) = true := by decide +kernel
+
+section pipeline
+open MaestroVerif.Expand MaestroVerif.Subst
+
+/-- **the script text of an instance is one simultaneous substitution into the step's text**
+(the pipeline-level equation).  For the instance the expansion places for a row of the table:
+its `cmd` and `restart` are the step's `cmd` and `restart` after the passes of `rowTable` -
+`Combination.apply` (labels, values, names of every parameter for this row), one pass per
+referenced workspace in the order `re.findall` returned them, `$(WORKSPACE)` last - for every
+specification, staging state and iteration oracle (`stageRow_text`); and whenever the step's text
+is a sequence of `$`-free literals and `$(NAME)` tokens and the table's names and values are
+`$`-free (`TableOk`: no value re-introduces a token), that is exactly the text in which every token
+whose name is in the table is replaced by the value found first and every other token and literal
+is left as it was (`C09_passes_simultaneous`). -/
+theorem C09_instance_text_simultaneous (spec : Spec) {ord : List Str → List Str} (ho : IsPermOracle ord)
+    (st : Step) (used : List Str) (s s' : SS) (row : Nat)
+    (hnew : s.combos.any (·.1 == instName st.name used (combo spec.params row)) = false)
+    (h : stageRow spec ord st used s row = .ok s') :
+    ∃ (t : Table) (inst : Inst),
+      t.map (·.1) = (refsOf st).map (· ++ ".workspace".toList) ∧
+      inst.name = instName st.name used (combo spec.params row) ∧
+      (s'.g.insts = if s.g.hasNode inst.name then s.g.insts else s.g.insts ++ [inst]) ∧
+      inst.cmd = passes (rowTable (combo spec.params row) t inst.ws) st.cmd ∧
+      inst.restart = passes (rowTable (combo spec.params row) t inst.ws) st.restart ∧
+      (TableOk (rowTable (combo spec.params row) t inst.ws) →
+        (∀ segs, Clean segs → st.cmd = render segs →
+          inst.cmd = render (segs.map (Seg.substAll (rowTable (combo spec.params row) t inst.ws)))) ∧
+        (∀ segs, Clean segs → st.restart = render segs →
+          inst.restart = render (segs.map (Seg.substAll (rowTable (combo spec.params row) t inst.ws))))) := by
+  obtain ⟨t, inst, h1, h2, h3, h4, h5⟩ := stageRow_text spec ho st used s s' row hnew h
+  refine ⟨t, inst, h1, h2, h5, h3, h4, fun hok => ⟨?_, ?_⟩⟩
+  · intro segs hc he
+    rw [h3, he]; exact passes_simultaneous _ segs hok hc
+  · intro segs hc he
+    rw [h4, he]; exact passes_simultaneous _ segs hok hc
+
+def demoSize : Param :=
+  { key := "SIZE".toList, name := "SIZE".toList, tmpl := some "SIZE.%%".toList, labels := [],
+    values := ["10".toList, "20".toList] }
+
+/-! non-vacuity: `echo $(SIZE) $(SIZE.label) $(pre.workspace) > $(WORKSPACE)/out` for the second row -/
+example :
+    passes (rowTable (combo [demoSize] 1) [("pre.workspace".toList, "/out/pre".toList)] "/out/run/SIZE.20".toList)
+      "echo $(SIZE) $(SIZE.label) $(pre.workspace) > $(WORKSPACE)/out".toList =
+    "echo 20 SIZE.20 /out/pre > /out/run/SIZE.20/out".toList := by decide +kernel
+
+end pipeline
 
 end MaestroVerif.C09
